@@ -777,6 +777,16 @@ pub fn fam_names(_cfg: &FunCfg, sink: &mut FunSink) {
             });
         }
     }
+    // a declaration that applies ANOTHER template to its own type parameter, the parameter named
+    // unlike / like the parameters of the applied template
+    for tp in ["T", "A", "B", "Elem"] {
+        sink.offer(move || {
+            let src = format!(
+                "{PRELUDE_TYPES}data Bx[{tp}] {{ MkBx(content: List[{tp}], more: Pair[{tp}, List[{tp}]]) }}\ncodata Str[{tp}] {{ shd: {tp}, smap(f: Fun[{tp}, {tp}]): Str[{tp}] }}\n{PRELUDE_DEFS}                 def unbox(b: Bx[i64]): i64 {{ b.case[i64] {{ MkBx(c, m) => sum(c) + (m.case[i64, List[i64]] {{ Tup(p, q) => p + sum(q) }}) }} }}\n                 def consts(v: i64): Str[i64] {{ new {{ shd => v, smap(f) => consts(f.ap[i64, i64](v)) }} }}\n                 def main(n: i64): i64 {{ println_i64(unbox(MkBx(Cons(n, Cons(2, Nil)), Tup(n, Nil)))); println_i64(consts(n).smap[i64](new {{ ap(q) => q + 5 }}).shd[i64]); 0 }}\n"
+            );
+            FunCase { name: format!("names/typaram/{tp}"), src, inputs: vec![vec![0], vec![3]], sequenced: true }
+        });
+    }
     let type_names = [("Cont", "Ret"), ("List_1", "Nil_"), ("T", "C"), ("Lab1", "Cleanup")];
     for (tn, cn) in type_names {
         sink.offer(move || {
